@@ -105,6 +105,12 @@ CHECKS.update({
    note="three known serde limitations are listed in KNOWN_FINDINGS.txt keyed by (format, cause class); objects in those classes are only covered in the remaining formats; load(save(x)) == x is not demanded field by field because init() normalises derived state"),
 })
 
+CHECKS.update({
+ "C18": dict(level="model_checking", ref="3 C18", technique="exhaustive interleaving exploration of the batch-walk contract with the real LocomotiveSimulation::walk as element bodies (shuttle check_dfs for N<=3, explicit (2N)!/2^N event enumeration for N=4,5, cross-checked), bound to the real rayon walk(true) in pools of 1..16 threads; exhaustive enumeration of hash-map iteration orders; sampled twin-run tripwire (labelled, not deciding)",
+   text="Every interleaving of every batch of up to 3 elements (and the stated N=4, 5 batches) of real locomotive simulations under rayon's try_for_each contract is executed in one process: each element must end bit-equal to its own serial walk or untouched, the batch result must be consistent and name a failing element that ran. The real parallel walk in pools of 1..16 threads must only produce outcomes of the explored set, and the serial batch walk must equal the element-wise serial reference. All 3! iteration orders of the three std hash containers are realised and must not change any output.",
+   note="rayon is modelled by its contract, not instrumented; the twin-run part samples hash seeds and never decides"),
+})
+
 def main():
     checks = []
     for pid in sorted(CHECKS):
